@@ -213,6 +213,36 @@ RefU0x(v)    == <<117, 48, 120>> \o Map(HexByteU, NatToHex(v.mag))             \
 RefS0xN(w, v, n) == <<115, 48, 120>> \o Map(HexByteU, NatToHexN(NatNorm(Pattern(w, v)), n))
 
 (***************************************************************************)
+(* Every spelling of the value v at width ww that the enumerating specs    *)
+(* use, as a set of [tag, lit]: decimal (plain, leading zeros, -0), u0x    *)
+(* (upper, lower, one leading zero, padded beyond the width) for v >= 0,   *)
+(* s0x for the signed range (exactly the width's digits, lower case, one   *)
+(* redundant leading zero, shortest), true/false for i1.                   *)
+(***************************************************************************)
+Lower(bs) == [i \in 1..Len(bs) |-> IF bs[i] >= 65 /\ bs[i] <= 70 THEN bs[i] + 32 ELSE bs[i]]
+Notations(ww, v) ==
+  LET nd == (ww + 3) \div 4
+      decs == {[tag |-> "dec", lit |-> RefDec(v)],
+               [tag |-> "dec-leading-zeros",
+                lit |-> (IF v.neg THEN <<45>> ELSE <<>>) \o <<48, 48>> \o Map(DecByte, NatToDec(v.mag))]}
+              \cup (IF v.mag = <<>> THEN {[tag |-> "dec-minus-zero", lit |-> <<45, 48>>]} ELSE {})
+      u0xs == IF v.neg THEN {}
+              ELSE {[tag |-> "u0x", lit |-> RefU0x(v)],
+                    [tag |-> "u0x-lower", lit |-> Lower(RefU0x(v))],
+                    [tag |-> "u0x-leading-zero", lit |-> <<117, 48, 120, 48>> \o Map(HexByteU, NatToHex(v.mag))],
+                    [tag |-> "u0x-long", lit |-> <<117, 48, 120>> \o Map(HexByteU, NatToHexN(v.mag, nd + 2))]}
+      s0xs == IF ~SignedRange(ww, v) THEN {}
+              ELSE {[tag |-> "s0x", lit |-> RefS0xN(ww, v, nd)],
+                    [tag |-> "s0x-lower", lit |-> Lower(RefS0xN(ww, v, nd))],
+                    [tag |-> "s0x-long", lit |-> RefS0xN(ww, v, nd + 1)],
+                    [tag |-> "s0x-short",
+                     lit |-> <<115, 48, 120>> \o Map(HexByteU, NatToHex(NatNorm(Pattern(ww, v))))]}
+      bools == IF ww # 1 \/ v.neg THEN {}
+               ELSE {[tag |-> "bool", lit |-> IF v.mag = <<>> THEN LitFalse ELSE LitTrue]}
+  IN decs \cup u0xs \cup s0xs \cup bools
+
+
+(***************************************************************************)
 (* The printer of ir/constant/const_int.go (Int.Ident), modelled: i1       *)
 (* prints true/false; other widths print decimal unless the value is at    *)
 (* least 0x1000 and hexadecimal is judged more readable by the digit-      *)
